@@ -29,7 +29,7 @@ func init() {
 
 var concTexts = []string{"a + b * 2", "$t = a, $t + b", "a + b", "[regexp(s1, 'ab'), regexp(s2, '^(a)*$'), regexp(s2, 'ab')]", "(m).a + b",
 	"round(a) * 1000 + roundBank(b)", "round(a) + 1", "lower(s1)", "$c = ($c ?? 0) + 1, $c", "hour(useTimezone(t, z))", "len(toString(m))"}
-var concParseTexts = []string{"'\\u4F11\\u4F34'+'\\x41'", "'\\u0041\\x62\\u4e2d'", "1 +\n (2 *", "1e1_0 + 2.5e-3"}
+var concParseTexts = []string{"'\\u4F11\\u4F34'+'\\x41'", "'\\u0041\\x62\\u4e2d'", "1 +\n (2 *", "1e1_0 + 2.5e-3", "a ? b", "f(p ? q)"}
 
 // concParseBytes: the same byte buffers are handed to every goroutine (a caller may parse one text from many goroutines);
 // parsing must not write to them.
